@@ -27,13 +27,25 @@ RULE = ('boxes: cells round-robin over 9 kinds (7 crystal families in LAMMPS for
         'length scale and origin class; after each change every kind of read (state, getters, reciprocal vectors, '
         'planes, both conversions, inside/outside with both inclusive settings, exact face points) in random order, '
         'judged against the oracle and against a freshly built Box of the same cell, with a bystander Box alive.  '
+        'structured: cells with exact zeros in chosen components: 11 patterns (upper/lower triangular, diagonal, one or two '
+        'components above/below the diagonal, one vector along an axis with the others general or in the normal plane, a single '
+        'zero in a general matrix, hexagonal settings) as named and under all 36 permutations of rows and columns, x 4 origin '
+        'classes x 4 length scales x 11 argument forms; every clause on them, also after being put onto a used Box, and against '
+        'their rebuild from lengths and angles.  strains: 6 successive small changes of the cell of ONE Box: 9 kinds (volumetric, '
+        'normal, one vector, one component: zeros stay zero; general strain, shear, one zero component filled, small rotation, '
+        'vector mixing: zeros get filled) x 14 sizes 1e-12..1e-1 relative, through 17 routes, starting from every cell kind and '
+        'from structured cells; judged at rounding level (64 eps cond) so that an error of the size of the change is seen.  '
         'A case is non-trivial when the cell is not the unit cube at the origin; distinct = distinct fingerprint.')
 ASSUMPTIONS = ['cells are right-handed with volume >= 10% of a*b*c (condition number < ~1e2)',
                'points closer than the stated bound (1e-8 (1 + |origin|/L) in relative coordinates) to a face are exempt '
                'from the inside/outside clause; the inclusive flag itself is judged on axis-aligned cells with points '
                'whose face coordinate is exactly the floating-point number of the face',
                'float32 scalars given to set_abc carry float32 rounding through the trigonometry: bound 1e-5 relative',
-               'oracle shares numpy/LAPACK with the code under test']
+               'oracle shares numpy/LAPACK with the code under test',
+               'rounding bounds: 64 eps cond(vects) for whatever goes through the inverse of the vector matrix (never looser than 1e-9), '
+               'a few eps for lengths, eps/sin(angle) for angles, eps a b c for the volume',
+               'components below 1e-9 of the largest one are flushed to zero by Box (documented): small changes never create a '
+               'component below 2e-8 of the largest one; the step through lengths and angles is judged at 2e-9']
 
 SETS = ('vectors', 'abc', 'lengths', 'hilo')
 EPS = float(np.finfo(float).eps)
@@ -482,8 +494,7 @@ def install_monitors(rec, am):
         except Exception as e:
             rec.fail('monitor: planes are six Plane objects', 'monitor:planes:type', exception=e)
             return
-        cond = np.linalg.cond(v)
-        ok, why = F.match_planes(normals, points, v, o, tol_n=1e-10 * max(10.0, cond))
+        ok, why = F.match_planes(normals, points, v, o, tol_n=rounding(v), tol_d=rounding(v) * (L + np.abs(o).max()))
         rec.check(ok, 'monitor: the planes returned are the six faces of the current cell (outward unit normals, points on the faces)',
                   'monitor:planes:faces', why=why, vects=v, origin=o, normals=normals, points=points)
 
@@ -600,7 +611,9 @@ def check_planes(rec, box, key='planes'):
     except Exception as e:
         rec.fail('planes are six Plane objects', key + ':exception', exception=e)
         return
-    ok, why = F.match_planes(normals, points, v, o, tol_n=1e-9)
+    # normals from cross products / from the inverse: good to eps * cond; the points given are vertices of the cell
+    tol = rounding(v)
+    ok, why = F.match_planes(normals, points, v, o, tol_n=tol, tol_d=tol * (np.linalg.norm(v, axis=1).max() + np.abs(o).max()))
     rec.count('planes-judged')
     rec.check(ok, 'planes are the six faces of the cell (outward unit normals, points on the faces)', key + ':faces',
               why=why, vects=v, origin=o, normals=normals, points=points)
@@ -1357,7 +1370,6 @@ def run(ctx):
             # the origin stays where it is (the changes that take no origin put it to zero; set_hi_los re-derives it)
             ncell = dict(kind='strained', vects=new_v, origin=cur_o.copy(), L=np.linalg.norm(new_v, axis=1).max(), lammps=lam_new)
             trail.append((op, ckind, mag))
-            if __import__("os").environ.get("C01DBG"): print("DBG", i, step, op, ckind, mag, mag_used, cur_v.tolist(), new_v.tolist(), cur_o.tolist(), file=open("/tmp/C01/dbg.txt","a"))
             rec.count('strain:change:' + ckind)
             rec.count(f'strain:size:{mag:g}')
             rec.count('strain:route:' + op)
@@ -1368,6 +1380,8 @@ def run(ctx):
                 rec.count('strain:size-raised-clear-of-zero-flush')
             if mag_used <= 1e-5:
                 rec.count('strain:le-1e-5:' + ('after-use' if used else 'unused'))
+            if mag_used <= 1e-5 and kept and used:
+                rec.count('strain:tiny-keeps-zeros-after-use')
             if mag_used <= 1e-8:
                 rec.count('strain:le-1e-8:' + ('after-use' if used else 'unused'))
             mode = 'full' if step == NSTEP - 1 else ('full', 'subset', 'full', 'none', 'full')[(i + step) % 5]
@@ -1442,6 +1456,43 @@ def run(ctx):
     for m in ('full', 'none', 'subset'):
         rec.floor('history:reads-after-change:' + m, 100)
     rec.floor('history:bystander-read', 100)
+    # structured zero patterns: every pattern, every arrangement of rows and columns, the layouts by name
+    for pat in C.PATTERNS:
+        rec.floor('struct:pattern:' + pat, 20)
+    for r_ in range(6):
+        rec.floor(f'struct:rowperm:{r_}', 15)
+        rec.floor(f'struct:colperm:{r_}', 15)
+        for c_ in range(6):
+            rec.floor(f'struct:arrangement:{r_}{c_}', 2)
+    for lab, n_ in (('zero-below-nonzero-above', 25), ('zero-above-nonzero-below', 25), ('diagonal', 8), ('mixed', 80), ('zero-on-diagonal', 50),
+                    ('zeros:1', 15), ('zeros:2', 15), ('zeros:3', 25), ('zeros:4', 40), ('zeros:5', 40), ('zeros:6', 15)):
+        rec.floor('struct:layout:' + lab, n_)
+    for oc in C.ORIGINS:
+        rec.floor('struct:origin:' + oc, 25)
+    rec.floor('struct:lammps', 12)
+    rec.floor('struct:not-lammps', 150)
+    rec.floor('struct:rebuild-abc', 400)
+    for r_ in range(4):
+        rec.floor(f'struct:used-box:route:{r_}', 40)
+    rec.floor('history:structured-target', 40)
+    # small changes: every kind, every size of the ladder, every route; tiny changes on an object that has been used
+    rec.floor('strain:steps', 900)
+    for k in C.SMALL_CHANGES:
+        rec.floor('strain:change:' + k, 80)
+    for m in C.MAGS:
+        rec.floor(f'strain:size:{m:g}', 50)
+    for op in [c for c in CHANGES if c not in ORIGIN_ONLY and c not in NEEDS_ORTHO and c not in ('set()', 'vects=:partial')]:
+        rec.floor('strain:route:' + op, 8)
+    rec.floor('strain:keeps-zeros', 400)
+    rec.floor('strain:keeps-zeros:cell-with-zeros', 200)
+    rec.floor('strain:fills-zeros', 150)
+    rec.floor('strain:le-1e-5:after-use', 300)
+    rec.floor('strain:le-1e-5:unused', 50)
+    rec.floor('strain:le-1e-8:after-use', 100)
+    rec.floor('strain:tiny-keeps-zeros-after-use', 150)
+    rec.floor('strain:start:structured', 40)
+    for k in C.KINDS:
+        rec.floor('strain:start:' + k, 8)
     rec.floor('twin:points-compared', 300)
     rec.floor('twin:getters-compared', 300)
     # the caller's-arguments clause was evaluated for every entry point in the forms that can alias the caller's memory
